@@ -88,6 +88,10 @@ pub enum St {
     Local(Vec<String>, Vec<Ex>),
     /// `local a: T, b = ...` (at least one annotation)
     LocalT(Vec<(String, Option<Ty>)>, Vec<Ex>),
+    /// `const a[: T], b = ...` (Luau; AssignmentKind::Const). The generators pad it: `nil`
+    /// values when there are more names than values and the last value is neither a call nor
+    /// `...`; throwaway names when there are more values than names.
+    Const(Vec<(String, Option<Ty>)>, Vec<Ex>),
     /// exported?, name, generic parameters, type
     TypeDecl(bool, String, Vec<Generic>, Ty),
     /// `[export] type function name(...) ... end`
@@ -397,6 +401,21 @@ pub fn to_statement(s: &St) -> n::Statement {
         St::Local(names, vals) => {
             n::VariableAssignment::new(typed(names), vals.iter().map(to_expr).collect()).into()
         }
+        St::Const(names, vals) => n::VariableAssignment::new(
+            names
+                .iter()
+                .map(|(name, t)| {
+                    let id = n::TypedIdentifier::new(name.as_str());
+                    match t {
+                        Some(t) => id.with_type(to_type(t)),
+                        None => id,
+                    }
+                })
+                .collect(),
+            vals.iter().map(to_expr).collect(),
+        )
+        .with_assignment_kind(n::AssignmentKind::Const)
+        .into(),
         St::LocalT(names, vals) => n::VariableAssignment::new(
             names
                 .iter()
@@ -758,10 +777,23 @@ pub fn from_statement(s: &n::Statement) -> Result<St, String> {
             a.iter_values().map(from_expr).collect::<Result<_, _>>()?,
         ),
         S::LocalAssign(a) => {
-            if a.get_assignment_kind() != n::AssignmentKind::Local {
-                return Err("const assignment".into());
-            }
             let values = a.iter_values().map(from_expr).collect::<Result<_, _>>()?;
+            if a.get_assignment_kind() != n::AssignmentKind::Local {
+                return Ok(St::Const(
+                    a.iter_variables()
+                        .map(|v| {
+                            Ok((
+                                v.get_name().clone(),
+                                match v.get_type() {
+                                    Some(t) => Some(from_type(t)?),
+                                    None => None,
+                                },
+                            ))
+                        })
+                        .collect::<Result<_, String>>()?,
+                    values,
+                ));
+            }
             if a.iter_variables().any(|v| v.has_type()) {
                 St::LocalT(
                     a.iter_variables()
@@ -1020,6 +1052,24 @@ pub fn norm_block(b: &Blk) -> Blk {
                         St::LocalT(n.iter().map(|(name, t)| (name.clone(), t.as_ref().map(norm_ty))).collect(), exprs(v))
                     }
                 }
+                // the text of a `const` declaration is the PADDED declaration (see St::Const)
+                St::Const(n, v) => {
+                    let mut names: Vec<(String, Option<Ty>)> =
+                        n.iter().map(|(name, t)| (name.clone(), t.as_ref().map(norm_ty))).collect();
+                    let mut values = exprs(v);
+                    if values.len() > names.len() {
+                        while names.len() < values.len() {
+                            names.push(("____darklua_throwaway_var".to_owned(), None));
+                        }
+                    } else if names.len() > values.len()
+                        && !matches!(v.last(), Some(Ex::Call(..)) | Some(Ex::MethodInst(..)) | Some(Ex::Varargs))
+                    {
+                        while values.len() < names.len() {
+                            values.push(Ex::Nil);
+                        }
+                    }
+                    St::Const(names, values)
+                }
                 St::TypeDecl(e, name, g, t) => St::TypeDecl(*e, name.clone(), norm_generics(g), norm_ty(t)),
                 St::TypeFunction(e, name, f) => St::TypeFunction(*e, name.clone(), norm_func(f)),
                 St::GForT(n, e, b) => {
@@ -1115,7 +1165,7 @@ pub fn count_tuple_arguments(b: &Blk) -> usize {
         .iter()
         .map(|s| match s {
             St::Assign(a, v) => exs(a) + exs(v),
-            St::Local(_, v) | St::LocalT(_, v) => exs(v),
+            St::Local(_, v) | St::LocalT(_, v) | St::Const(_, v) => exs(v),
             St::TypeDecl(..) => 0,
             St::TypeFunction(_, _, f) => func(f),
             St::GForT(_, e, b) => exs(e) + count_tuple_arguments(b),
